@@ -1,5 +1,6 @@
 import OpenFecVerif.Model.Api
 import OpenFecVerif.Proofs.LdpcFin
+import OpenFecVerif.Proofs.ITEvents
 /-!
 # C11 — decoded-source-symbol callback contract (session model)
 
@@ -91,3 +92,17 @@ theorem C11_ldpc_finish_events (IO : SymIO σ) (s : Session σ) (p : Params) (it
       ∀ e, e ∈ (ldpcFinish IO s p).2.2 ↔ (e < p.k ∧ it.known e = false ∧ it'.known e = true) := by
   obtain ⟨it', h1, _, _, _, h5, h6⟩ := LdpcFin.ldpcFinish_truthful IO s p it hit hk
   exact ⟨it', h1, h5, h6⟩
+
+
+/-- **LDPC-Staircase / 2D, iterative-decoding stage: the callback events of one `of_decode_with_new_symbol`** (or of one entry of
+`of_set_available_symbols`) are exactly the source symbols that were unknown before the call, are known after it and are not the submitted
+symbol, each exactly once.  Known symbols stay known (and the bound on the equations' entries is kept, so the statement applies to the
+next call), hence over a whole session no symbol is reported twice and never one that was received.  Hypotheses: the entries of the
+decoder's equations are below n (true of every configured session, C05) and the matrix has not been consumed by `of_finish_decoding`
+(afterwards submissions are only registered and produce no event). -/
+theorem C11_ldpc_recv_events (IO : SymIO σ) (s : Session σ) (p : Params) (esi j : Nat) (v : σ) (it : IT.St σ) (hit : s.it = some it)
+    (hcons : s.mlConsumed = false) (hrows : ITEvents.RowsLt p.n it) (hesi : esi < p.n) :
+    ∃ it', (ldpcRecv IO s p esi v j).2.1.it = some it' ∧ ITEvents.RowsLt p.n it' ∧ (∀ e, it.known e = true → it'.known e = true) ∧
+      (ldpcRecv IO s p esi v j).2.2.Nodup ∧
+      ∀ e, e ∈ (ldpcRecv IO s p esi v j).2.2 ↔ (e < p.k ∧ it.known e = false ∧ it'.known e = true ∧ e ≠ esi) :=
+  ITEvents.ldpcRecv_events IO s p esi j v it hit hcons hrows hesi
